@@ -123,7 +123,7 @@ PROPS = {
     'C17': {
         'oracles': ['C17', 'C08'],
         'geoms': {'quick': ['default', 'th1'], 'thorough': ALLG},
-        'runs': {'quick': [seq('zone', 30, 150), unit('nvm', 40)], 'thorough': [seq('zone', 600, 300), unit('nvm', 2000)]},
+        'runs': {'quick': [seq('zone', 30, 150), unit('nvm', 60)], 'thorough': [seq('zone', 600, 300), unit('nvm', 2000)]},
         'rule': ('zone wrapper: histories through ZoneAlloc with offsets k*TREE_FRAMES (and misaligned offsets, which must be refused), '
                  'targets/frees below, at and above the offset, frees that forgot the offset, stats_at through the wrapper; persistent '
                  'wrapper: anonymous memory regions of 1..3 trees plus odd remainders and tiny regions at several aligned bases: '
@@ -204,7 +204,7 @@ PROPS = {
     'C05': {
         'oracles': ['C05'], 'bv_decide': True,
         'geoms': {'quick': ['default', 'th1'], 'thorough': ALLG},
-        'runs': {'quick': [conc(10, 40, 20, 0, crash_every=3), seq('mixed', 15, 150)],
+        'runs': {'quick': [conc(10, 40, 20, 0, crash_every=3), seq('mixed', 15, 150), unit('nvm', 40)],
                  'thorough': [conc(120, 300, 150, 0, crash_every=1, bound=3), seq('mixed', 300, 300), unit('nvm', 500)]},
         'rule': T_RULE + ('Crash oracle: before every crash_every-th atomic write to the lower (persistent) buffer of every explored schedule the '
                           'buffer is copied; the copy is recovered by the real LLFree::new(Init::Recover) with zeroed volatile buffers; every block '
